@@ -41,7 +41,10 @@ def rand_decl(rng):
                 locals=[rng.choice("BHIQbhiq") for _ in range(rng.randint(0, 3))],
                 hashes=hashes, calls=calls,
                 regs=sorted(rng.sample(REGS, nreg)),
-                tmps=sorted(rng.sample(sorted(TMPS), ntmp)))
+                tmps=sorted(rng.sample(sorted(TMPS), ntmp)),
+                # a Dict whose entry is looked up: the last statements of the program run inside the lookup block
+                # and may read the members of the looked-up value (addressed through r0)
+                dict=rng.choice([["Q", "I", "H", "H"], ["q", "i"], ["Q"]]) if calls and rng.random() < 0.4 else None)
 
 
 def cells(d):
@@ -51,6 +54,8 @@ def cells(d):
     out += [(("H", i), f, "hash") for i, f in enumerate(d["hashes"])]
     out += [(("R", no), "Q", "reg") for no in d["regs"]]
     out += [(("T", t), TMPS[t][1], "tmp") for t in d["tmps"]]
+    if d.get("dict"):
+        out += [(("V", i), f, "lk") for i, f in enumerate(d["dict"])]
     return out
 
 
@@ -58,8 +63,14 @@ def name_of(c):
     return f"{c[0]}_{c[1]}"
 
 
-def rand_leaf(rng, d, allow_time):
-    cs = cells(d)
+KEYC = 7                                   # the key of the Dict entry that exists
+
+
+def rand_leaf(rng, d, allow_time, inblock=False):
+    cs = [x for x in cells(d) if x[2] != "lk" or inblock]
+    if inblock and rng.random() < 0.35:
+        c, f, kind = rng.choice([x for x in cs if x[2] == "lk"])
+        return ("var", c, f)
     r = rng.random()
     if r < 0.22:
         return ("const", rng.choice([rng.randint(0, 9), rng.randint(-5, 300), rng.getrandbits(31),
@@ -88,22 +99,22 @@ def only_consts(tree):
     return False
 
 
-def rand_tree(rng, d, depth, allow_time=True):
+def rand_tree(rng, d, depth, allow_time=True, inblock=False):
     if depth == 0 or rng.random() < 0.25:
-        return rand_leaf(rng, d, allow_time)
+        return rand_leaf(rng, d, allow_time, inblock)
     r = rng.random()
     if r < 0.08:
-        a = rand_tree(rng, d, depth - 1, allow_time)
+        a = rand_tree(rng, d, depth - 1, allow_time, inblock)
         while a[0] in ("reg", "tmp"):       # -register negates the register itself (observation N): kept out
-            a = rand_tree(rng, d, depth - 1, allow_time)
+            a = rand_tree(rng, d, depth - 1, allow_time, inblock)
         return ("neg", a)
     op = rng.choice(["add", "add", "sub", "sub", "mul", "and", "or", "xor", "lsh", "rsh"])
-    left = rand_tree(rng, d, depth - 1, allow_time)
+    left = rand_tree(rng, d, depth - 1, allow_time, inblock)
     if op in ("lsh", "rsh"):
         if only_consts(left):
-            left = rand_leaf(rng, d, False)
+            left = rand_leaf(rng, d, False, inblock)
         return ("bin", op, left, ("const", rng.randint(0, 7)))
-    right = rand_tree(rng, d, depth - 1, allow_time and not has(left, "ktime"))
+    right = rand_tree(rng, d, depth - 1, allow_time and not has(left, "ktime"), inblock)
     return ("bin", op, left, right)
 
 
@@ -113,6 +124,7 @@ def rand_program(rng):
     stmts = []                                          # (dst cell, view or None, tree)
     # user registers are given their first value BEFORE the temporaries' block is entered: a temporary takes a
     # register nobody owns yet, and a register counts as owned from its first assignment on
+    cs = [x for x in cs if x[2] != "lk"] + [x for x in cs if x[2] == "lk"]
     for c, f, kind in cs:
         if kind == "reg":
             stmts.append((c, "r", ("const", rng.choice([rng.randint(0, 200), rng.getrandbits(64)]))))
@@ -123,12 +135,16 @@ def rand_program(rng):
             init.append((c, None, ("const", rng.choice([rng.randint(0, 200), rng.getrandbits(8 * SIZE[f])]))))
     rng.shuffle(init)
     stmts += init
-    for _ in range(rng.randint(3, 9)):
-        c, f, kind = rng.choice(cs)
-        t = rand_tree(rng, d, rng.choice([1, 1, 2]))
+    nbody = rng.randint(3, 9)
+    nblock = rng.randint(1, 3) if d.get("dict") else 0          # the last nblock statements: inside the lookup block
+    for j in range(nbody):
+        inblock = j >= nbody - nblock
+        c, f, kind = rng.choice([x for x in cs if x[2] != "lk"])
+        t = rand_tree(rng, d, rng.choice([1, 1, 2]), True, inblock)
         while only_consts(t) or (t[0] == "const"):
-            t = rand_tree(rng, d, rng.choice([1, 2]))
+            t = rand_tree(rng, d, rng.choice([1, 2]), True, inblock)
         stmts.append((c, rng.choice(["r", "sr", "w"]) if kind == "reg" else None, t))
+    d["block"] = nblock
     last = {}
     for c, view, t in stmts:
         last[c] = view
@@ -141,14 +157,15 @@ def rand_program(rng):
 def build(d, stmts, outs, nregs, use_kernel=False):
     from ebpfcat.xdp import XDP, XDPExitCode
     from ebpfcat.arraymap import ArrayMap
-    from ebpfcat.hashmap import HashMap
-    from ebpfcat.ebpf import LocalVar, ktime
+    from ebpfcat.hashmap import HashMap, Dict
+    from ebpfcat.ebpf import LocalVar, ktime, Structure, Member
     m = ArrayMap()
     ns = dict(license="GPL", m=m)
     for i, f in enumerate(d["arrays"]):
         ns[f"A_{i}"] = m.globalVar(f)
     for j, (c, f, kind) in enumerate(outs):
         ns[f"O_{j}"] = m.globalVar(f)
+    ns["found"] = m.globalVar("B")           # set inside the lookup block: the entry was found
     for i, f in enumerate(d["locals"]):
         ns[f"L_{i}"] = LocalVar(f)
     if d["hashes"]:
@@ -157,7 +174,15 @@ def build(d, stmts, outs, nregs, use_kernel=False):
         for i, f in enumerate(d["hashes"]):
             ns[f"H_{i}"] = hm.globalVar(f)
 
+    if d.get("dict"):
+        K = type("K", (Structure,), {"K_0": Member("I")})
+        Vs = type("Vs", (Structure,), {f"V_{i}": Member(f) for i, f in enumerate(d["dict"])})
+        ns["dd"] = Dict(key=K, value=Vs, size=4)
+    looked = []
+
     def expr(self, t):
+        if t[0] == "var" and t[1][0] == "V":
+            return getattr(looked[0], name_of(t[1]))
         if t[0] == "const":
             return t[1]
         if t[0] == "ktime":
@@ -186,11 +211,20 @@ def build(d, stmts, outs, nregs, use_kernel=False):
         with ExitStack() as scope:
             for t in d["tmps"]:
                 scope.enter_context(getattr(self, t))
-            for c, view, tree in stmts[nregs:]:
+            nblock = d.get("block", 0)
+            rest = stmts[nregs:]
+            for c, view, tree in rest[:len(rest) - nblock]:
                 e = expr(self, tree)
                 if isinstance(e, int) and not isinstance(tree[1], int):
                     raise NotGenerated("expression evaluated while building")
                 assign(self, c, view, e)
+            if nblock:
+                self.dd.key.K_0 = KEYC
+                with self.dd.lookup() as (value, Else):
+                    looked.append(value)
+                    for c, view, tree in rest[len(rest) - nblock:]:
+                        assign(self, c, view, expr(self, tree))
+                    self.found = 1
             for j, (c, f, kind) in enumerate(outs):
                 if kind == "reg":
                     src = (self.w if f == "I" else self.r)[c[1]]
@@ -225,8 +259,13 @@ def make_case(rng, d, stmts, outs, b):
     kindof = {c: k for c, _, k in cs}
     arrfd = next(i + 1 for i, mm in enumerate(b.maps) if mm["type"] == "array")
     arr = bytes(rng.getrandbits(8) for _ in range(b.maps[arrfd - 1]["vs"]))
-    hfd = next((i + 1 for i, mm in enumerate(b.maps) if mm["type"] == "hash"), 0)
+    hfd = next((i + 1 for i, mm in enumerate(b.maps) if mm["type"] == "hash" and mm["ks"] == 1), 0)
+    dfd = next((i + 1 for i, mm in enumerate(b.maps) if mm["type"] == "hash" and mm["ks"] == 4), 0)
     hashes, recs = [], []
+    entry = b""
+    if d.get("dict"):
+        entry = bytes(rng.getrandbits(8) for _ in range(b.maps[dfd - 1]["vs"]))
+        hashes.append((dfd, KEYC.to_bytes(4, "little"), entry))
     for c, f, kind in cs:
         if kind == "arr":
             off = inst.__dict__[name_of(c)]
@@ -236,6 +275,9 @@ def make_case(rng, d, stmts, outs, b):
             val = bytes(rng.getrandbits(8) for _ in range(8))
             hashes.append((hfd, bytes(key), val))
             recs.append(dict(size=SIZE[f], kind="hash", fd=hfd, off=0, key=key, init=list(val[:SIZE[f]])))
+        elif kind == "lk":
+            off = type(inst.dd.value).__dict__[name_of(c)].relative_addr
+            recs.append(dict(size=SIZE[f], kind="none", fd=0, off=0, key=[], init=list(entry[off:off + SIZE[f]])))
         else:
             recs.append(dict(size=8 if kind in ("reg", "tmp") else SIZE[f], kind="none", fd=0, off=0, key=[], init=[]))
     ntime = [0]
